@@ -465,3 +465,24 @@ META = {
     'assumptions': ['items are truthy objects', 'the file system does not change between planning and conversion',
                     'termination not proved'],
 }
+
+
+def bounded_checks(tier, seed):
+    """native CLI check (replay/C24.py --cli): the real `loki-transform plan` and `loki-transform convert` commands with
+    identical arguments on a two-directory project (header inside / outside the --source tree); bounded, never proved"""
+    import json
+    import os
+    import subprocess
+    root = os.path.dirname(os.path.dirname(os.path.abspath(__file__)))
+    repo = os.environ.get('LOKI_REPO', '/repo')
+    p = subprocess.run([os.environ.get('LOKI_PYTHON', '/venv/bin/python'), os.path.join(root, 'replay', 'C24.py'), '--cli'],
+                       capture_output=True, text=True, timeout=1800, env=dict(os.environ, PYTHONPATH=repo), cwd=repo)
+    line = next((l for l in reversed(p.stdout.splitlines()) if l.startswith('{')), None)
+    rule = ('one 4-file project, header module next to a kernel-level routine, that directory inside / outside the --source '
+            'path: plan and convert with the same arguments; LOKI_SOURCES_TO_APPEND = files written, TO_TRANSFORM = '
+            'TO_REMOVE = their originals (no replication), and one command fails iff the other does')
+    if line is None:
+        return [{'name': 'native/cli-plan-vs-convert', 'cases': 0, 'violation': False, 'error': p.stderr[-600:], 'rule': rule}]
+    r = json.loads(line)
+    return [{'name': 'native/cli-plan-vs-convert', 'cases': 2, 'distinct': 2, 'rule': rule, 'bound': 'one fixed project, 2 layouts',
+             'violation': bool(r.get('reproduced')), 'cex': r}]
